@@ -868,3 +868,124 @@ def check_fixed_part_validation(ck, rule, prog, rbody, label, reader_input=1):
     if not n:
         ck.undecided(rule, "%s/fixed-part" % label, "no constant length validation recognised in %s" % rbody.short, where=rbody.where())
     return n
+
+
+# ------------------------------------------------------------------------------------------------ how much input a reader demands
+def fails_from(body, tg):
+    """every path from block tg ends in a panic (a diverging call / unreachable) or in an error result"""
+    errs = error_blocks(body)
+    seen, work = set(), [tg]
+    while work:
+        b = work.pop()
+        if b in seen:
+            continue
+        seen.add(b)
+        if b in errs:
+            continue
+        x = body.blocks[b].term
+        if x.k == "return":
+            return False
+        if x.k == "unreachable":
+            continue
+        if x.k == "call" and x.target is None:
+            continue
+        work.extend(x.successors())
+    return True
+
+
+def length_demand(prog, body, param=1):
+    """(bytes demanded by explicit length guards, end of the constant-offset part that is read) of a function that decodes a
+    prefix of its input: the smallest input length on which no guard of the form `len OP constant` fails, and 1 + the
+    largest constant offset it reads.  None for a component that is not recognised."""
+    from engines import compare_switches, relation_cases
+    R = Reader(prog, body, param)
+    fixed_end = None
+    for pos, acc in R.accesses.items():
+        if acc["loop"] or acc["lo"] is None or not set(acc["lo"]) <= {()}:
+            continue
+        hi = acc["hi"] if isinstance(acc["hi"], dict) and set(acc["hi"]) <= {()} else None
+        end = hi.get((), 0) if hi is not None else acc["lo"].get((), 0) + (4 if acc["kind"] == "from" else 0)
+        fixed_end = max(fixed_end or 0, int(end))
+    demand = 0
+    for cs in compare_switches(body, R.pv):
+        l = R.ex.operand(body, cs["l"], 0, (cs["bb"], 0))
+        r = R.ex.operand(body, cs["r"], 0, (cs["bb"], 0))
+        if l == S("LEN"):
+            other, swap = r, False
+        elif r == S("LEN"):
+            other, swap = l, True
+        else:
+            continue
+        a = affine(other)
+        if a is None or not set(a) <= {()}:
+            continue
+        c = int(a.get((), 0))
+        cases = relation_cases(cs, swap=swap)  # LEN against c
+        bad = {k for k, tg in cases.items() if tg is not None and fails_from(body, tg)}
+        if bad == {"lt"}:
+            demand = max(demand, c)
+        elif bad == {"lt", "eq"}:
+            demand = max(demand, c + 1)
+    # bounds-check asserts of constant indices are implied by fixed_end
+    return demand, fixed_end
+
+
+def check_end_guards(ck, rule, label, prog, body, input_param=1):
+    """a reader of consecutive records may stop only when NOTHING is left: every branch that ends the iteration (leaves the record
+    loop normally / returns `None` from `next`) on a comparison of the input length with the consumed offset must be equivalent to
+    `remaining == 0`.  A constant slack (`remaining < 14`) silently drops trailing records that are shorter than the slack."""
+    from engines import compare_switches, relation_cases
+    R = Reader(prog, body, input_param)
+    loops = body.natural_loops()
+    is_next = body.name == "next"
+    n = 0
+
+    def is_stop(sw, tg):
+        if tg is None or fails_from(body, tg):
+            return False
+        inner = [bl for h, bl in loops.items() if sw in bl]
+        if inner:
+            return tg not in min(inner, key=len)
+        if is_next:
+            reg = body.region((sw, tg))
+            return any(st.k == "assign" and st.place.local == 0 and st.rv["k"] == "agg" and st.rv.get("variant") == "None" for r_ in reg for st in body.blocks[r_].stmts)
+        return False
+
+    for cs in compare_switches(body, R.pv):
+        at = (cs["bb"], len(body.blocks[cs["bb"]].stmts))
+        l = R.ex.operand(body, cs["l"], 0, at)
+        r = R.ex.operand(body, cs["r"], 0, at)
+        if l == S("LEN") and r != S("LEN"):
+            other, swap = r, False
+        elif r == S("LEN") and l != S("LEN"):
+            other, swap = l, True
+        else:
+            continue
+        cases = relation_cases(cs, swap=swap)  # LEN against `other`
+        stop = {k for k, tg in cases.items() if is_stop(cs["bb"], tg)}
+        if not stop or stop == {"lt", "eq", "gt"}:
+            continue
+        a = affine(other)
+        syms = [k for k in (a or {}) if k != ()]
+        if a is None or len(syms) > 1 or (syms and (a[syms[0]] != 1 or not str(syms[0]).startswith("idx#"))):
+            ck.undecided(rule, "%s/end-guard@%s" % (label, cs["line"]), "%s ends its iteration on a comparison of the input length with %s, which is not `consumed offset + constant`" % (body.short, show(other)), where=body.where(cs["line"]))
+            n += 1
+            continue
+        c0 = int(a.get((), 0))
+        # stop iff remaining (= LEN - offset) OP c0
+        if stop == {"lt"}:
+            ok, cond = c0 == 1, "remaining < %d" % c0
+        elif stop == {"lt", "eq"}:
+            ok, cond = c0 == 0, "remaining <= %d" % c0
+        elif stop == {"eq"}:
+            ok, cond = c0 == 0, "remaining == %d" % c0
+        else:
+            ok, cond = False, "remaining %s %d" % ("/".join(sorted(stop)), c0)
+        n += 1
+        ck.ob(rule, "%s/end-guard@%s" % (label, "len" if not syms else "offset"), ok, "%s stops reading records when %s%s" % (body.short, cond, " (nothing is left)" if ok else ": a trailing record shorter than that is dropped without an error"), where=body.where(cs["line"]))
+    # emptiness tests through is_empty()
+    for bi, t in body.calls():
+        if t.callee.method == "is_empty" and t.args and params_of(R.pv.of_operand(body, t.args[0]), body.id) == {input_param}:
+            n += 1
+            ck.ob(rule, "%s/end-guard@is_empty" % label, True, "%s tests the remaining input with is_empty()" % body.short, where=body.where(t.line))
+    return n
